@@ -136,6 +136,13 @@ def lines_for(tree, rng):
                     out.append((names + ["--unknownopt", "--" + o["long"]], "path+unknown-option+option-named-like-subcommand-" + tag))
                     out.append((names + fill + ["--", "--" + o["long"]], "path+dd+option-named-like-subcommand-" + tag))
             if not use_alias:
+                # a disabled (or anonymous) sub-command's name or alias after its parent's path is not a name
+                for sub in n["subs"]:
+                    if sub["kind"] in ("disabled", "anon"):
+                        for w in [sub["name"]] + sub["aliases"][:1]:
+                            out.append((names + [w], "path+not-a-name-" + sub["kind"]))
+                            out.append((names + [w] + T.positional_fill(p + (sub,)), "path+not-a-name+args-" + sub["kind"]))
+            if not use_alias:
                 # options in front of the path: there are no leading tokens, whatever follows
                 out.append((["-x"] + names + fill, "option-before-path"))
                 out.append((["-xyz"] + names + fill, "short-cluster-before-path"))
